@@ -13,3 +13,39 @@ pub mod devrun;
 pub mod explore;
 pub mod server;
 pub mod world;
+
+use crate::util::Report;
+use explore::{Event, Monitor, TimeDetail};
+use std::sync::Arc;
+
+/// the monitor a property uses (for replaying a recorded history without the explorer)
+pub fn proto_for(prop: &str, cfg: &world::Cfg) -> Option<Box<dyn Monitor>> {
+    Some(match prop {
+        "C05" => Box::new(c05::Mon::new(4, TimeDetail::Medium)),
+        "C06" => Box::new(c06::Mon::new(4, 0, true, TimeDetail::Fine)),
+        "C07" => Box::new(c07::Mon::new(4, cfg)),
+        "C08" => Box::new(c08::Mon::new(8)),
+        "C10" => c10_client::proto(),
+        "C11" => Box::new(c11::Mon::new(4, TimeDetail::Fine)),
+        "C12" => Box::new(c12::Mon::new(64)),
+        "C17" => Box::new(c17::Mon { max_sends: 3 }),
+        _ => return None,
+    })
+}
+
+/// Re-executes a recorded history on a fresh real client under the property's monitor.
+/// Returns the violations observed (key, detail).
+pub fn replay_history(prop: &str, replay: &serde_json::Value) -> Result<Vec<(String, String)>, String> {
+    let cfg: world::Cfg = serde_json::from_value(replay["cfg_json"].clone()).map_err(|e| format!("cfg_json: {}", e))?;
+    let apps: Vec<Vec<crate::refs::codec::L>> = serde_json::from_value(replay["apps_json"].clone()).map_err(|e| format!("apps_json: {}", e))?;
+    let events: Vec<Event> = serde_json::from_value(replay["events_json"].clone()).map_err(|e| format!("events_json: {}", e))?;
+    let proto = proto_for(prop, &cfg).ok_or_else(|| format!("no client monitor for {}", prop))?;
+    let apps = Arc::new(apps);
+    let mut run = explore::start(&cfg, &apps, proto.as_ref());
+    let mut rep = Report::new();
+    for k in 0..events.len() {
+        let obs = explore::step(&mut run, &events[k], Some((&mut rep, &events[..=k])));
+        println!("  step {:>2} {:<60} -> {:?} {:?}", k, events[k].show().chars().take(60).collect::<String>(), format!("{:?}", obs.res).chars().take(60).collect::<String>(), world::show_events(&obs.events));
+    }
+    Ok(rep.violations.into_iter().map(|(k, (v, _))| (k, v.detail)).collect())
+}
